@@ -336,8 +336,65 @@ func c15Parallelize(c *Ctx) {
 			return true
 		}
 		nGo++
-		lit, ok := gs.Call.Fun.(*ast.FuncLit)
-		if !ok {
+		// the goroutine's body: a literal, a local variable holding a literal, or a function of the package (whose
+		// parameters then stand for the arguments, so an adder handed in is an adder inside)
+		var lit *ast.FuncLit
+		goAdders := adders
+		switch fun := ast.Unparen(gs.Call.Fun).(type) {
+		case *ast.FuncLit:
+			lit = fun
+		case *ast.Ident:
+			if o := info.Uses[fun]; o != nil {
+				nAssign := 0
+				ast.Inspect(body, func(m ast.Node) bool {
+					switch as := m.(type) {
+					case *ast.AssignStmt:
+						for i, l := range as.Lhs {
+							if id, ok := l.(*ast.Ident); ok && info.ObjectOf(id) == o {
+								nAssign++
+								if i < len(as.Rhs) && len(as.Lhs) == len(as.Rhs) {
+									if fl, ok := ast.Unparen(as.Rhs[i]).(*ast.FuncLit); ok {
+										lit = fl
+									}
+								}
+							}
+						}
+					case *ast.ValueSpec:
+						for i, id := range as.Names {
+							if info.ObjectOf(id) == o && i < len(as.Values) {
+								nAssign++
+								if fl, ok := ast.Unparen(as.Values[i]).(*ast.FuncLit); ok {
+									lit = fl
+								}
+							}
+						}
+					}
+					return true
+				})
+				if nAssign != 1 {
+					lit = nil
+				}
+				if fn, isFn := o.(*types.Func); isFn {
+					if fr := p.Func("private/pkg/thread", fn.Name()); fr != nil && fr.Obj == fn && fr.Decl.Body != nil && fr.Decl.Recv == nil {
+						lit = &ast.FuncLit{Type: fr.Decl.Type, Body: fr.Decl.Body}
+						goAdders = map[types.Object]*ast.FuncLit{}
+						for k, v := range adders {
+							goAdders[k] = v
+						}
+						var params []*ast.Ident
+						for _, f := range fr.Decl.Type.Params.List {
+							params = append(params, f.Names...)
+						}
+						for i, a := range gs.Call.Args {
+							if al := adders[identObj(info, a)]; i < len(params) && al != nil {
+								goAdders[info.ObjectOf(params[i])] = al
+							}
+						}
+					}
+				}
+			}
+		}
+		if lit == nil {
 			c.Ob(rule, "go-literal", gs.Pos(), false, false, "go statement does not run a literal: cannot decide error collection")
 			return true
 		}
@@ -363,7 +420,7 @@ func c15Parallelize(c *Ctx) {
 				if !ok || len(call.Args) != 1 {
 					continue
 				}
-				if _, isAdder := adders[identObj(info, call.Fun)]; isAdder && identObj(info, call.Args[0]) == obj {
+				if _, isAdder := goAdders[identObj(info, call.Fun)]; isAdder && identObj(info, call.Args[0]) == obj {
 					found = true
 				}
 			}
